@@ -39,7 +39,14 @@ func (w *fileWriter) file(file *model.File) error {
 
 	for _, imp := range file.Imports {
 		pkg := importPackage(imp)
-		w.linef(`"%v"`, pkg)
+
+		// Generated code refers to imported types by the schema import name (or alias),
+		// so import the package under that name, or blank when nothing refers to it.
+		name := imp.Name
+		if !importUsed(file, imp) {
+			name = "_"
+		}
+		w.linef(`%v "%v"`, name, pkg)
 	}
 	w.line(")")
 	w.line()
@@ -160,4 +167,49 @@ func (w *fileWriter) service(def *model.Definition) error {
 
 func (w *fileWriter) serviceImpl(def *model.Definition) error {
 	return newServiceImplWriter(w.writer).serviceImpl(def)
+}
+
+// importUsed returns true when any type in the file refers to the import.
+func importUsed(file *model.File, imp *model.Import) bool {
+	var used func(t *model.Type) bool
+	used = func(t *model.Type) bool {
+		switch {
+		case t == nil:
+			return false
+		case t.Import == imp:
+			return true
+		}
+		return used(t.Element)
+	}
+
+	for _, def := range file.Definitions {
+		switch def.Type {
+		case model.DefinitionMessage:
+			for _, f := range def.Message.Fields.List {
+				if used(f.Type) {
+					return true
+				}
+			}
+
+		case model.DefinitionStruct:
+			for _, f := range def.Struct.Fields.Values() {
+				if used(f.Type) {
+					return true
+				}
+			}
+
+		case model.DefinitionService:
+			for _, m := range def.Service.Methods {
+				if used(m.Request) || used(m.Response) || used(m.Subservice) {
+					return true
+				}
+				if ch := m.Channel; ch != nil {
+					if used(ch.In) || used(ch.Out) {
+						return true
+					}
+				}
+			}
+		}
+	}
+	return false
 }
